@@ -172,12 +172,16 @@ class C12(Prop):
     def run(self, scn, res):
         P = "C12"
         w = World(scn, monitors=self.monitors(scn))
+        V = res["violations"]
         try:
             w.run()
+        except BaseException:
+            # (a run cut short by the peer-call budget keeps what its monitors had found: the bounded-liveness oracle reports that way)
+            V.extend(v for v in w.violations if v["property"] == P)
+            raise
         finally:
             absorb(res, w)
             res["digest"] = w.hexdigest()
-        V = res["violations"]
         V.extend(v for v in w.violations if v["property"] == P)
 
         def bad(oracle, detail, op):
